@@ -13,7 +13,9 @@ SidsW == {1, 3, 2147483647}
 DataLens == {0, 1, 100, 16384}
 PadLens == {-1, 0, 1, 255}          \* -1: not padded
 Prios == { [dep |-> 0, excl |-> FALSE, w |-> 0],          \* all zero: WriteHeaders omits the PRIORITY flag (IsZero)
-           [dep |-> 3, excl |-> TRUE, w |-> 255], [dep |-> 2147483647, excl |-> FALSE, w |-> 15] }
+           [dep |-> 3, excl |-> TRUE, w |-> 255], [dep |-> 2147483647, excl |-> FALSE, w |-> 15],
+           \* exactly one field differs from zero: each of them alone makes the parameter non-zero
+           [dep |-> 0, excl |-> TRUE, w |-> 0], [dep |-> 0, excl |-> FALSE, w |-> 1], [dep |-> 1, excl |-> FALSE, w |-> 0] }
 
 Ops ==
   { [m |-> "WriteData", sid |-> s, es |-> e, n |-> n, pad |-> p] : s \in SidsW, e \in BOOLEAN, n \in DataLens, p \in PadLens }
